@@ -75,8 +75,23 @@ pub fn run(cfg: &Cfg, rep: &mut Report) {
         ("\\d+", f("")), ("\\d*", f("")), ("", f("")), ("a", f("")), ("a*", f("")), ("a*?", f("")), ("\\b", f("")), ("(?=a)", f("")), ("é", f("")), ("é*", f("")), ("[^a]", f("")), (".", f("s")), ("^", f("m")), ("$", f("m")), ("a|é|", f("")), ("(a)(1)?", f("")),
         ("\\B", f("")), ("1+|a", f("")), ("zzz", f("")), ("(?<=a)1", f("")), ("(?<=a)", f("")), ("a+?", f("")), ("\u{10000}?", f("u")), ("[a1]{2}", f("")), ("^a", f("")), ("a$", f("")), ("(?:)", f("u")), ("\\s*", f("")), ("x*", f("")), ("aa|a", f("")),
     ];
+    // plus seeded structured patterns over the haystack alphabet (any accepted regex must honour
+    // the contract, not only the hand-picked ones)
+    let mut regexes: Vec<(String, Flags)> = regexes.into_iter().map(|(p, f)| (p.to_string(), f)).collect();
+    {
+        let mut grng = Rng::new(cfg.seed ^ 0x2020);
+        for k in 0..cfg.scaled(if cfg.quick() { 250 } else { 4000 }) {
+            let flags = pick_flags(&mut grng);
+            let mut g = gen::GenCfg::new(flags, vec!['a' as u32, '1' as u32, 0xE9, '\n' as u32]);
+            g.max_depth = grng.range(1, 3);
+            let mut sub = grng.fork(k as u64);
+            let out = gen::Gen::new(&mut sub, &g).generate();
+            regexes.push((out.pattern, flags));
+        }
+    }
+    rep.add("generated_regexes", regexes.len() as u64);
     let alphabet: Vec<u32> = vec!['a' as u32, '1' as u32, 0xE9];
-    let mut hays = gen::all_strings(&alphabet, if cfg.quick() { 4 } else { 6 });
+    let mut hays = gen::all_strings(&alphabet, if cfg.quick() { 5 } else { 7 });
     for extra in ["ab12cd", "  a  ", "a\u{10000}a", "\u{10000}", "aaaa1111éééé", "a1\né\n", "\n\n", "1a1a1a1a1a1a1a1a1"] {
         hays.push(extra.to_string());
     }
@@ -98,10 +113,11 @@ pub fn run(cfg: &Cfg, rep: &mut Report) {
                 }
             }
             if idx % 64 == 0 {
-                rep.begin(idx, &J::obj().set("pattern", *pat).set("flags", flags.to_string()).set("haystack", hay.as_str()));
+                rep.begin(idx, &J::obj().set("pattern", pat.as_str()).set("flags", flags.to_string()).set("haystack", hay.as_str()));
             }
-            let case = || J::obj().set("pattern", *pat).set("pattern_cps", J::Arr(engine::to_cps(pat).iter().map(|&c| J::from(c)).collect())).set("flags", flags.to_string()).set("haystack", hay.as_str()).set("haystack_hex", hex(hay.as_bytes())).set("start", 0).set("check", "c20");
-            let expected: Vec<(usize, usize)> = match engine::find_all(&re, hay, 0, engine::Api::Utf8, FUEL) {
+            let case = || J::obj().set("pattern", pat.as_str()).set("pattern_cps", J::Arr(engine::to_cps(pat).iter().map(|&c| J::from(c)).collect())).set("flags", flags.to_string()).set("haystack", hay.as_str()).set("haystack_hex", hex(hay.as_bytes())).set("start", 0).set("check", "c20");
+            // (an eighth of the budget: the searchers may legitimately repeat some of find_iter's work)
+            let expected: Vec<(usize, usize)> = match engine::find_all(&re, hay, 0, engine::Api::Utf8, FUEL / 8) {
                 Guarded::Ok(v) => v.iter().map(|m| m.range).collect(),
                 _ => {
                     rep.inconclusive("fuel");
